@@ -53,6 +53,33 @@ CHECKS.update({
    technique="exhaustive program enumeration; per-iteration conformance replay + outcome-set equality"),
 })
 
+CHECKS.update({
+ "C12": dict(level="model_checking", design="DESIGN.md 5 (C12)",
+   text="Every operation sequence up to depth 2 (quick) / 3 (thorough) over the full op alphabet, boundary operands (0,1,2,MAX,MAX-1,MIN,MIN+1,-1, a mid pattern) and every initial value, for all 12 atomic types, is executed on the loom atomic inside loom::model and on the std atomic side by side; every return value (with its Ok/Err shape) and the final content must be equal, and the model must take exactly one iteration.",
+   note="Sequential: one thread. Assumes compare_exchange_weak does not fail spuriously single-threaded on this host; orderings are swept at depth 1 only.",
+   technique="exhaustive bounded enumeration of operation sequences with a differential oracle (std::sync::atomic)"),
+ "C13": dict(level="model_checking", design="DESIGN.md 5 (C13)",
+   text="For each program: two full runs must visit identical (decision path, outcome, history) sequences; for every checkpoint interval and stop point k a run interrupted in iteration k followed by a resumed run must visit exactly the executions of the uninterrupted run from the last stored boundary on; for every distinct outcome a failing variant must fail again first thing after loading its checkpoint.",
+   note="Trusted: hook H1 path copy + harness history identify an execution. Quick samples about 30 evenly spaced stop points per interval; thorough uses all.",
+   technique="exhaustive enumeration of stop points x checkpoint intervals; sequence equality against the uninterrupted exploration"),
+ "C14": dict(level="model_checking", design="DESIGN.md 5 (C14)",
+   text="Every iteration's decision path of every program of the A-sc, LIT, LOCK, WAIT and CHAN families is streamed through a depth-first-order oracle: a new path must first differ from its predecessor by an alternative not yet taken under that prefix. This implies pairwise distinct paths, none a prefix of another, and iteration count = number of distinct paths; a run that hits the harness cap is reported as capped, never as holding.",
+   note="Trusted: hook H1 is a faithful copy of loom's path.",
+   technique="exhaustive program enumeration; streaming trie/DFS-order oracle over all decision paths"),
+ "C15": dict(level="model_checking", design="DESIGN.md 5 (C15)",
+   text="Every program of the level is explored with preemption_bound 0..6, #ops and unbounded; every iteration's preemptions are recounted from the raw schedule branches (switch away from a thread that is neither disabled nor yielded) and must not exceed the bound; result sets must be subsets of the unbounded one, monotone in n, and equal to it for n >= #ops.",
+   note="loom's own counter may exceed the recount (it also counts picking a non-default thread after a block); only the recount is compared with the bound.",
+   technique="exhaustive program x bound enumeration; per-iteration recount + result-set inclusion oracles"),
+ "C16": dict(level="model_checking", design="DESIGN.md 5 (C16)",
+   text="K diverse programs: every ordered pair back to back in one process and every unordered pair on two OS threads must reproduce each program's fresh-process iteration sequence; every iteration of every program is replayed alone in a fresh process from the checkpoint stored before it and must equal the same iteration inside the full run; the execution-state fingerprint (hook H2) and the main thread id are identical at the start of every iteration.",
+   note="Trusted: a fresh child process as the 'nothing ran before' reference; hook H2 fingerprint fields.",
+   technique="exhaustive pair enumeration + per-iteration isolated replay (differential oracle, no hand-written expectation)"),
+ "C19": dict(level="model_checking", design="DESIGN.md 5 (C19)",
+   text="For every program of the level: every placement i<=j of stop_exploring()/explore() in every thread, every placement of skip_branch(), every placement of explore() under expect_explicit_explore (no alternative may be taken at a decision recorded with exploration disabled; restricted result set is a subset; an empty region restricts nothing), max_branches in {b-1,b,b+1}, max_threads in {k-1,k,k+1}, a max_permutations x checkpoint-interval grid around N, and max_duration in {0, 1h}.",
+   note="A region is the time between the two calls (the flag is global to the execution); limits are examined at checkpoint boundaries.",
+   technique="exhaustive enumeration of control placements and limit values around the exact need; path oracle through hook H1"),
+})
+
 NOT_YET = {}
 
 def main():
